@@ -341,6 +341,13 @@ pub fn write_evidence(ctx: &Ctx, out: &Outcome, wall_s: f64) -> String {
     cov.entry("distinct_nontrivial").or_insert(json!(0));
     cov.entry("rule").or_insert(json!(""));
     cov.entry("samples").or_insert(json!([]));
+    // the counts are summed over all engines of the check; the additional engines and their
+    // non-triviality rules
+    let extra = extra_engines(&ctx.id);
+    if !extra.is_empty() {
+        let r = cov.get("rule").and_then(|r| r.as_str()).unwrap_or("").to_string();
+        cov.insert("rule".into(), json!(format!("{r} || additional engines counted in the same totals: {extra}")));
+    }
     let body = json!({
         "property_id": ctx.id,
         "tier": if ctx.tier == Tier::Quick { "quick" } else { "thorough" },
@@ -354,6 +361,31 @@ pub fn write_evidence(ctx: &Ctx, out: &Outcome, wall_s: f64) -> String {
     });
     let _ = std::fs::write(&path, serde_json::to_string_pretty(&body).unwrap());
     path
+}
+
+/// per property: the engines added after the history engine, with their non-triviality rules
+fn extra_engines(id: &str) -> String {
+    const CONV: &str = "conversions (From<Vec/VecDeque/LinkedList/slice/array/BTreeSet/BinaryHeap/BTreeMap/HashMap/HashSet>, collect()) from generated pairs with repeated keys followed by a history; non-trivial = the source had a repeated key and the history is not empty";
+    const BIG: &str = "large-scale cases (257 .. 131 073 entries, u64 keys, sequential prefill, history aimed at both ends of the recency order); non-trivial = the prefill filled a cache of at least 1024 entries";
+    const VTYPE: &str = "value-type independence (the same history with seven value types); non-trivial = something was evicted (or ghosted) and something updated";
+    const MEDIUM: &str = "medium-scale histories (capacities 64..400, 600..2500 operations), same rule as the history engine";
+    match id {
+        "C01" => "E2 small-scope closure (every reachable state); constructor capacity contracts and the 2Q quota grid (exhaustive, counted separately); CONVERSIONS; BIG",
+        "C02" => "CONVERSIONS; key universes (prefix slices of one buffer as reference keys, PathBuf through Path spellings; non-trivial = more puts than the capacity and a lookup through a non-canonical spelling); BIG",
+        "C03" => "CONVERSIONS; histories under an inconsistent BuildHasher (same rule as the history engine); BIG",
+        "C04" => "CONVERSIONS; asymmetric drop glue (non-trivial = more puts than the capacity and a remove); BIG",
+        "C06" | "C07" | "C08" | "C09" => "E2 closure; VTYPE; MEDIUM; BIG; constructor / quota / victim-rule / adaptation grids (exhaustive, counted separately in the coverage object)",
+        "C10" | "C12" => "MEDIUM; exhaustive PutResult law pairs (C12)",
+        "C13" => "BIG twin runs (the same history with read-only calls inserted)",
+        "C17" => "conversions converted twice (non-trivial = at least three distinct keys)",
+        "C18" => "conversions with every user-code call as crash point (non-trivial = a crash point inside the conversion itself fired)",
+        "C19" => "concurrent readers (counted separately)",
+        _ => "",
+    }
+    .replace("CONVERSIONS", CONV)
+    .replace("BIG", BIG)
+    .replace("VTYPE", VTYPE)
+    .replace("MEDIUM", MEDIUM)
 }
 
 const C11_RULE: &str = "generated TinyLFU configurations (size, samples, false-positive ratio, key hasher) x operation sequences over increment / increment_hashed_key / increment_keys / increment_hashed_keys / try_reset / clear / estimate* / contains* / lt..eq with raw hashes from a small alphabet plus 0, u64::MAX, 1<<32, 1<<63 and random values; 30% of the cases use a single key (exact equality with the aged-count model); non-trivial = at least one reset happened and at least one counter > 1 was halved; distinct by FNV-64 of the serialised case; run in the std and in the no_std build";
